@@ -49,19 +49,212 @@ theorem newConfig_get {old args nc : Config} (h : newConfig old args = .ok nc) (
     subst h
     cases k <;> first | rfl | exact absurd rfl hk
 
+theorem runThreadV_append (v : Variant) (env : Env) (s : TState) (a b : List Op) :
+    runThreadV v env s (a ++ b) =
+      ((runThreadV v env (runThreadV v env s a).1 b).1,
+        (runThreadV v env s a).2 ++ (runThreadV v env (runThreadV v env s a).1 b).2) := by
+  induction a generalizing s with
+  | nil => simp [runThreadV]
+  | cons op ops ih =>
+    simp only [List.cons_append, runThreadV]
+    rw [ih]
+
 theorem runThread_append (env : Env) (s : TState) (a b : List Op) :
     runThread env s (a ++ b) =
       ((runThread env (runThread env s a).1 b).1,
-        (runThread env s a).2 ++ (runThread env (runThread env s a).1 b).2) := by
-  induction a generalizing s with
-  | nil => simp [runThread]
-  | cons op ops ih =>
-    simp only [List.cons_append, runThread]
-    rw [ih]
+        (runThread env s a).2 ++ (runThread env (runThread env s a).1 b).2) :=
+  runThreadV_append Variant.code env s a b
+
+theorem runThreadV_cons (v : Variant) (env : Env) (s : TState) (op : Op) (ops : List Op) :
+    (runThreadV v env s (op :: ops)).1 = (runThreadV v env (stepV v env s op).1 ops).1 := by
+  simp [runThreadV]
 
 theorem runThread_cons (env : Env) (s : TState) (op : Op) (ops : List Op) :
-    (runThread env s (op :: ops)).1 = (runThread env (step env s op).1 ops).1 := by
-  simp [runThread]
+    (runThread env s (op :: ops)).1 = (runThread env (step env s op).1 ops).1 :=
+  runThreadV_cons Variant.code env s op ops
+
+theorem runThread_nil (env : Env) (s : TState) : (runThread env s []).1 = s := rfl
+
+/-- Everything `createObj` does when the constructor returns. -/
+theorem createObj_ok {s : TState} {args : Config} {o : Obj} {s' : TState}
+    (h : createObj s args = .ok (o, s')) :
+    parallelConfigInit s.cfg args = .ok (o.cm, s'.cfg) ∧ o.id = s.objs.length ∧
+      o.oldOwner = s.cur ∧ s'.stack = s.stack ∧ s'.objs = s.objs ++ [o] ∧ s'.cur = some o.id := by
+  unfold createObj at h
+  split at h
+  · rename_i cm cfg hp
+    cases h
+    exact ⟨hp, rfl, rfl, rfl, rfl, rfl⟩
+  · cases h
+
+theorem createObj_error {s : TState} {args : Config} {e : Err}
+    (h : parallelConfigInit s.cfg args = .error e) : createObj s args = .error e := by
+  unfold createObj; rw [h]
+
+theorem createObj_of_ok {s : TState} {args : Config} {cm : Ctx} {cfg : Config}
+    (h : parallelConfigInit s.cfg args = .ok (cm, cfg)) :
+    createObj s args = .ok (⟨s.objs.length, cm, s.cur⟩,
+      { s with cfg := cfg, objs := s.objs ++ [⟨s.objs.length, cm, s.cur⟩],
+               cur := some s.objs.length }) := by
+  unfold createObj; rw [h]
+
+/-- `unregister()` of joblib as it is: the saved configuration, unconditionally. -/
+theorem unregisterV_code (s : TState) (o : Obj) :
+    unregisterV Variant.code s o = { s with cfg := o.cm.old_parallel_config, cur := o.oldOwner } := by
+  simp [unregisterV, Variant.code, unregister]
+
+theorem step_enter_ok (env : Env) {s : TState} {args : Config} {cm : Ctx} {cfg : Config}
+    (h : parallelConfigInit s.cfg args = .ok (cm, cfg)) :
+    (step env s (.enter args)).1 =
+      ⟨cfg, ⟨s.objs.length, cm, s.cur⟩ :: s.stack, s.objs ++ [⟨s.objs.length, cm, s.cur⟩],
+        some s.objs.length⟩ := by
+  simp only [step, stepV, createObj_of_ok h]
+
+theorem step_exit_cons (env : Env) {s : TState} {o : Obj} {rest : List Obj}
+    (h : s.stack = o :: rest) :
+    (step env s .exit).1 =
+      { s with stack := rest, cfg := o.cm.old_parallel_config, cur := o.oldOwner } := by
+  simp only [step, stepV, exitStep, h, unregisterV_code]
+
+theorem exitStep_cons {s : TState} {o : Obj} {rest : List Obj} (h : s.stack = o :: rest) :
+    (exitStep Variant.code s).1 =
+      { s with stack := rest, cfg := o.cm.old_parallel_config, cur := o.oldOwner } := by
+  simp only [exitStep, h, unregisterV_code]
+
+theorem unregisterV_objs (v : Variant) (s : TState) (o : Obj) : (unregisterV v s o).objs = s.objs := by
+  unfold unregisterV; split <;> rfl
+
+theorem unregisterV_stack (v : Variant) (s : TState) (o : Obj) :
+    (unregisterV v s o).stack = s.stack := by
+  unfold unregisterV; split <;> rfl
+
+theorem unregStep_stack (v : Variant) (s : TState) (k : Nat) : (unregStep v s k).1.stack = s.stack := by
+  unfold unregStep; split
+  · exact unregisterV_stack v s _
+  · rfl
+
+theorem getElem?_append_some {α : Type} (l l' : List α) (k : Nat) (o : α) (h : l[k]? = some o) :
+    (l ++ l')[k]? = some o := by
+  induction l generalizing k with
+  | nil => simp at h
+  | cons a t ih =>
+    cases k with
+    | zero => simpa using h
+    | succ k => simp only [List.cons_append, List.getElem?_cons_succ] at h ⊢; exact ih k h
+
+/-- A thread never forgets an object: the k-th object stays the k-th object, whatever it does. -/
+theorem stepV_objs_get (v : Variant) (env : Env) (s : TState) (op : Op) (k : Nat) (o : Obj)
+    (h : s.objs[k]? = some o) : (stepV v env s op).1.objs[k]? = some o := by
+  cases op with
+  | enter a =>
+    simp only [stepV]
+    cases hc : createObj s a with
+    | error e => exact h
+    | ok r =>
+      obtain ⟨o', s'⟩ := r
+      obtain ⟨_, _, _, _, ho, _⟩ := createObj_ok hc
+      simp only [ho]
+      exact getElem?_append_some _ _ _ _ h
+  | create a =>
+    simp only [stepV]
+    cases hc : createObj s a with
+    | error e => exact h
+    | ok r =>
+      obtain ⟨o', s'⟩ := r
+      obtain ⟨_, _, _, _, ho, _⟩ := createObj_ok hc
+      simp only [ho]
+      exact getElem?_append_some _ _ _ _ h
+  | exit =>
+    simp only [stepV, exitStep]
+    split
+    · rw [unregisterV_objs]; exact h
+    · exact h
+  | unreg j =>
+    simp only [stepV, unregStep]
+    split
+    · rw [unregisterV_objs]; exact h
+    · exact h
+  | par e => exact h
+  | gab p r w => exact h
+  | spawn c kd => exact h
+
+theorem runThreadV_objs_get (v : Variant) (env : Env) (ops : List Op) (s : TState) (k : Nat) (o : Obj)
+    (h : s.objs[k]? = some o) : (runThreadV v env s ops).1.objs[k]? = some o := by
+  induction ops generalizing s with
+  | nil => exact h
+  | cons op ops ih =>
+    rw [runThreadV_cons]
+    exact ih _ (stepV_objs_get v env s op k o h)
+
+/-- `with` blocks are lexically nested: a program leaves the stack of enclosing blocks as it
+found it, whatever else it does. -/
+theorem xrun_stack (p : XProg) (s : TState) : (xrun p s).state.stack = s.stack := by
+  induction p generalizing s with
+  | done => rfl
+  | par e k ih => exact ih s
+  | gab p q v k ih => exact ih s
+  | block args body k ihb ihk =>
+    simp only [xrun]
+    cases h : createObj s args with
+    | error e => rfl
+    | ok r =>
+      obtain ⟨o, s'⟩ := r
+      obtain ⟨_, _, _, hstk, _, _⟩ := createObj_ok h
+      have hb := ihb { s' with stack := o :: s'.stack }
+      have he := exitStep_cons hb
+      simp only []
+      split
+      · dsimp only; rw [he]; exact hstk
+      · dsimp only; rw [ihk, he]; exact hstk
+  | create args k ih =>
+    simp only [xrun]
+    cases h : createObj s args with
+    | error e => rfl
+    | ok r =>
+      obtain ⟨o, s'⟩ := r
+      obtain ⟨_, _, _, hstk, _, _⟩ := createObj_ok h
+      simp only []
+      rw [ih]; exact hstk
+  | unreg i k ih =>
+    simp only [xrun]
+    rw [ih]; exact unregStep_stack _ s i
+  | raise => rfl
+  | try_ body k ihb ihk =>
+    simp only [xrun]
+    rw [ihk, ihb]
+
+/-- A step of thread `u` leaves thread `t ≠ u` alone unless it starts `t`. -/
+theorem gstepV_other (v : Variant) (env : Env) (g : Global) {u t : Nat} {op : Op}
+    (hu : u ≠ t) (hs : ∀ k, op ≠ .spawn t k) : (gstepV v env g u op).1 t = g t := by
+  cases op with
+  | spawn c k =>
+    simp only [gstepV]
+    by_cases hc : t = c
+    · subst hc; exact absurd rfl (hs k)
+    · rw [if_neg hc]
+  | enter a => simp only [gstepV]; rw [if_neg (Ne.symm hu)]
+  | exit => simp only [gstepV]; rw [if_neg (Ne.symm hu)]
+  | par e => simp only [gstepV]; rw [if_neg (Ne.symm hu)]
+  | gab p r w => simp only [gstepV]; rw [if_neg (Ne.symm hu)]
+  | create a => simp only [gstepV]; rw [if_neg (Ne.symm hu)]
+  | unreg k => simp only [gstepV]; rw [if_neg (Ne.symm hu)]
+
+/-- A step of thread `t` (other than starting itself) is `stepV` on its own state. -/
+theorem gstepV_self (v : Variant) (env : Env) (g : Global) {t : Nat} {op : Op}
+    (hs : ∀ k, op ≠ .spawn t k) :
+    ((gstepV v env g t op).1 t, (gstepV v env g t op).2) = stepV v env (g t) op := by
+  cases op with
+  | spawn c k =>
+    simp only [gstepV, stepV]
+    by_cases hc : t = c
+    · subst hc; exact absurd rfl (hs k)
+    · rw [if_neg hc]
+  | enter a => simp only [gstepV, if_true]
+  | exit => simp only [gstepV, if_true]
+  | par e => simp only [gstepV, if_true]
+  | gab p r w => simp only [gstepV, if_true]
+  | create a => simp only [gstepV, if_true]
+  | unreg k => simp only [gstepV, if_true]
 
 /-- Everything `_get_active_backend` does when it returns. -/
 theorem getActive_ok {rep : Bool} {env : Env} {cfg : Config} {p r v : Slot} {a : Active}
@@ -173,6 +366,13 @@ theorem parallelInit_ok {r21 r22 : Bool} {env : Env} {cfg e : Config} {r : ParOb
 
 /-! ### Which blocks a thread is inside (ghost state for `precedence`) -/
 
+/-- Steps of a program that uses `with` blocks only (no object made by a plain call, no
+`unregister()` by hand): for these "the blocks the thread is inside" is defined. -/
+def Op.scoped : Op → Bool
+  | .create _ => false
+  | .unreg _ => false
+  | _ => true
+
 /-- The effective arguments (`new_config`) of the blocks the thread is inside, innermost first,
 tracked along the steps. -/
 def enclosingStep (st : List Config) : Op → List Config
@@ -186,32 +386,32 @@ def enclosing : List Config → List Op → List Config
   | st, [] => st
   | st, op :: ops => enclosing (enclosingStep st op) ops
 
-def StackRel : List Config → List Ctx → Prop
+def StackRel : List Config → List Obj → Prop
   | [], [] => True
-  | _ :: st, cm :: stk => cm.old_parallel_config = stackCfg st ∧ StackRel st stk
+  | _ :: st, o :: stk => o.cm.old_parallel_config = stackCfg st ∧ StackRel st stk
   | _, _ => False
 
-theorem step_inv (env : Env) (st : List Config) (s : TState) (op : Op)
+theorem step_inv (env : Env) (st : List Config) (s : TState) (op : Op) (hop : op.scoped = true)
     (hc : s.cfg = stackCfg st) (hs : StackRel st s.stack) :
     (step env s op).1.cfg = stackCfg (enclosingStep st op) ∧
       StackRel (enclosingStep st op) (step env s op).1.stack := by
   cases op with
   | enter a =>
-    simp only [step, enclosingStep]
+    simp only [step, stepV, enclosingStep]
     cases hn : newConfig s.cfg a with
     | error e =>
       have : parallelConfigInit s.cfg a = .error e := by
         simp [parallelConfigInit, hn, bind, Except.bind]
-      rw [this, ← hc, hn]; exact ⟨hc, hs⟩
+      rw [createObj_error this, ← hc, hn]; exact ⟨hc, hs⟩
     | ok nc =>
       have : parallelConfigInit s.cfg a = .ok (⟨s.cfg, update s.cfg nc⟩, update s.cfg nc) := by
         simp [parallelConfigInit, hn, bind, Except.bind, pure, Except.pure]
-      rw [this, ← hc, hn]
+      rw [createObj_of_ok this, ← hc, hn]
       refine ⟨?_, ?_⟩
       · simp [stackCfg, hc]
       · exact ⟨hc, hs⟩
   | exit =>
-    simp only [step, enclosingStep]
+    simp only [step, stepV, exitStep, enclosingStep]
     cases hstk : s.stack with
     | nil =>
       rw [hstk] at hs
@@ -224,18 +424,23 @@ theorem step_inv (env : Env) (st : List Config) (s : TState) (op : Op)
       | nil => simp [StackRel] at hs
       | cons a st' =>
         obtain ⟨h1, h2⟩ := hs
-        exact ⟨by simpa [unregister] using h1, h2⟩
+        simp only [unregisterV_code, List.tail_cons]
+        exact ⟨h1, h2⟩
   | par e => exact ⟨hc, hs⟩
   | gab p r v => exact ⟨hc, hs⟩
+  | create a => cases hop
+  | unreg k => cases hop
+  | spawn c k => exact ⟨hc, hs⟩
 
-theorem runThread_inv (env : Env) (ops : List Op) (st : List Config) (s : TState)
+theorem runThread_inv (env : Env) (ops : List Op) (hops : ∀ op ∈ ops, op.scoped = true)
+    (st : List Config) (s : TState)
     (hc : s.cfg = stackCfg st) (hs : StackRel st s.stack) :
     (runThread env s ops).1.cfg = stackCfg (enclosing st ops) := by
   induction ops generalizing st s with
-  | nil => simpa [runThread, enclosing] using hc
+  | nil => simpa [runThread, runThreadV, enclosing] using hc
   | cons op ops ih =>
-    obtain ⟨h1, h2⟩ := step_inv env st s op hc hs
+    obtain ⟨h1, h2⟩ := step_inv env st s op (hops op (by simp)) hc hs
     rw [runThread_cons]
-    exact ih _ _ h1 h2
+    exact ih (fun o ho => hops o (by simp [ho])) _ _ h1 h2
 
 end JoblibModel.Config
